@@ -371,7 +371,7 @@ SameVal(a, b, heap) ==
 
 
 ---------------------------------------------------------------------------
-(* printf / sprintf (builtins.md printf): %v %s %q %t %% and %.Nf with N <= 2 *)
+(* printf / sprintf (builtins.md printf): %v %s %q %t %f %% with width, precision and the - and 0 prefixes *)
 
 \* m / 2^e rounded to p decimals (half to even on the exact value), as text
 FixedCps(a, p) ==
@@ -385,6 +385,55 @@ FixedCps(a, p) ==
   IN (IF a.m < 0 /\ q > 0 THEN <<45>> ELSE <<>>) \o NatCps(ip)
        \o (IF p = 0 THEN <<>> ELSE <<46>> \o Zeros(p - Len(fp)) \o fp)
 
+\* one specifier, f = the text after the percent sign:  [-|0] [width: 1-2 digits] [. [precision: 1 digit]] verb
+IsDig(c) == c >= 48 /\ c <= 57
+SpecAt(f) ==
+  LET flag == IF Len(f) >= 1 /\ f[1] \in {45, 48} THEN f[1] ELSE 0
+      i1 == IF flag = 0 THEN 1 ELSE 2
+      wd == IF i1 <= Len(f) /\ IsDig(f[i1]) THEN (IF i1 + 1 <= Len(f) /\ IsDig(f[i1 + 1]) THEN 2 ELSE 1) ELSE 0
+      w == IF wd = 0 THEN 0 ELSE IF wd = 1 THEN f[i1] - 48 ELSE (f[i1] - 48) * 10 + f[i1 + 1] - 48
+      i2 == i1 + wd
+      hasP == i2 <= Len(f) /\ f[i2] = 46
+      pd == IF hasP /\ i2 + 1 <= Len(f) /\ IsDig(f[i2 + 1]) THEN 1 ELSE 0
+      p == IF pd = 1 THEN f[i2 + 1] - 48 ELSE 0
+      i3 == i2 + (IF hasP THEN 1 + pd ELSE 0)
+  IN [ok |-> i3 <= Len(f), flag |-> flag, w |-> w, hasP |-> hasP, p |-> p,
+      verb |-> IF i3 <= Len(f) THEN f[i3] ELSE 0, n |-> i3]
+
+RECURSIVE Fill(_, _)
+Fill(c, n) == IF n <= 0 THEN <<>> ELSE <<c>> \o Fill(c, n - 1)
+
+\* the text of one argument under one specifier (before padding): [ok |-> "ok"|"panic"|"unspec", cp]
+\* builtins.md printf: %v default format; %s %q %t %f demand their type; precision = decimal places of %f
+\* (6 when absent) and, by the documented example %-7.2v "abcd", the number of characters kept of a string
+SpecText(s, sp, v) ==
+  LET U == [ok |-> "unspec", cp |-> <<>>]
+      Pn == [ok |-> "panic", cp |-> <<>>]
+      T(cp) == [ok |-> "ok", cp |-> cp]
+      Keep(cp) == IF sp.hasP THEN SubSeq(cp, 1, IF sp.p < Len(cp) THEN sp.p ELSE Len(cp)) ELSE cp
+  IN CASE sp.verb = 118 -> IF v.t = "str" THEN T(Keep(v.cp))
+                           ELSE IF sp.hasP \/ ~ValPrintable(v, s.heap) THEN U
+                           ELSE IF sp.w > 0 /\ v.t \in {"arr", "map"} THEN U
+                           ELSE T(ValCps(v, s.heap, FALSE))
+       [] sp.verb = 115 -> IF v.t = "str" THEN T(Keep(v.cp)) ELSE Pn
+       [] sp.verb = 113 -> IF v.t # "str" THEN Pn
+                           ELSE IF sp.hasP \/ ~Quotable(v.cp) \/ \E i \in DOMAIN v.cp : v.cp[i] >= 127 THEN U
+                           ELSE T(QuoteCps(v.cp))
+       [] sp.verb = 116 -> IF v.t # "bool" THEN Pn ELSE IF sp.hasP THEN U ELSE T(IF v.b THEN S_true ELSE S_false)
+       [] sp.verb = 102 -> IF v.t # "num" THEN Pn
+                           ELSE LET pr == IF sp.hasP THEN sp.p ELSE 6
+                                IN IF v.s = "fin" /\ Small(v) /\ Abs(v.m) < 2147 /\ (pr <= 3 \/ pr = 6) THEN T(FixedCps(v, pr)) ELSE U
+       [] OTHER -> U
+
+\* width: at least w characters, blanks on the left; "-" blanks on the right; "0" leading zeros (the place of
+\* the zeros relative to a minus sign is not documented)
+Padded(sp, v, cp) ==
+  IF Len(cp) >= sp.w THEN [ok |-> "ok", cp |-> cp]
+  ELSE IF sp.flag = 45 THEN [ok |-> "ok", cp |-> cp \o Fill(32, sp.w - Len(cp))]
+  ELSE IF sp.flag = 48 THEN (IF v.t = "num" /\ Len(cp) > 0 /\ cp[1] = 45 THEN [ok |-> "unspec", cp |-> <<>>]
+                             ELSE [ok |-> "ok", cp |-> Fill(48, sp.w - Len(cp)) \o cp])
+  ELSE [ok |-> "ok", cp |-> Fill(32, sp.w - Len(cp)) \o cp]
+
 RECURSIVE FmtGo(_, _, _, _)
 \* result: [ok |-> "ok" | "panic" | "unspec", cp |-> text]; args are any-wrapped values
 FmtGo(s, f, args, acc) ==
@@ -392,23 +441,13 @@ FmtGo(s, f, args, acc) ==
   ELSE IF f[1] # 37 THEN FmtGo(s, Tail(f), args, Append(acc, f[1]))
   ELSE IF Len(f) = 1 THEN [ok |-> "unspec", cp |-> acc]
   ELSE IF f[2] = 37 THEN FmtGo(s, SubSeq(f, 3, Len(f)), args, Append(acc, 37))
-  ELSE IF Len(args) = 0 THEN [ok |-> "unspec", cp |-> acc]
-  ELSE LET v == Unwrap(args[1])
-           rest == SubSeq(args, 2, Len(args))
-       IN CASE f[2] = 118 -> IF ValPrintable(v, s.heap) THEN FmtGo(s, SubSeq(f, 3, Len(f)), rest, acc \o ValCps(v, s.heap, FALSE))
-                             ELSE [ok |-> "unspec", cp |-> acc]
-            [] f[2] = 115 -> IF v.t = "str" THEN FmtGo(s, SubSeq(f, 3, Len(f)), rest, acc \o v.cp) ELSE [ok |-> "panic", cp |-> acc]
-            [] f[2] = 113 -> IF v.t = "str" THEN (IF Quotable(v.cp) /\ \A i \in DOMAIN v.cp : v.cp[i] < 127
-                                                   THEN FmtGo(s, SubSeq(f, 3, Len(f)), rest, acc \o QuoteCps(v.cp))
-                                                   ELSE [ok |-> "unspec", cp |-> acc])
-                             ELSE [ok |-> "panic", cp |-> acc]
-            [] f[2] = 116 -> IF v.t = "bool" THEN FmtGo(s, SubSeq(f, 3, Len(f)), rest, acc \o (IF v.b THEN S_true ELSE S_false))
-                             ELSE [ok |-> "panic", cp |-> acc]
-            [] f[2] = 46 /\ Len(f) >= 4 /\ f[3] \in {48, 49, 50} /\ f[4] = 102 ->
-                             IF v.t # "num" THEN [ok |-> "panic", cp |-> acc]
-                             ELSE IF v.s = "fin" /\ Small(v) THEN FmtGo(s, SubSeq(f, 5, Len(f)), rest, acc \o FixedCps(v, f[3] - 48))
-                             ELSE [ok |-> "unspec", cp |-> acc]
-            [] OTHER -> [ok |-> "unspec", cp |-> acc]
+  ELSE LET sp == SpecAt(Tail(f))
+       IN IF ~sp.ok \/ Len(args) = 0 THEN [ok |-> "unspec", cp |-> acc]
+          ELSE LET v == Unwrap(args[1])
+                   t == SpecText(s, sp, v)
+                   pd == IF t.ok = "ok" THEN Padded(sp, v, t.cp) ELSE t
+               IN IF pd.ok = "ok" THEN FmtGo(s, SubSeq(f, sp.n + 2, Len(f)), SubSeq(args, 2, Len(args)), acc \o pd.cp)
+                  ELSE [ok |-> pd.ok, cp |-> acc]
 
 \* exactly representable points of the transcendental functions
 ExactMath(f, a, b) ==
